@@ -48,7 +48,21 @@ pub enum Target {
     TipMinus5,
     Abs(u64),
 }
-const TARGETS: [Target; 6] = [Target::Tip, Target::TipMinus5, Target::Abs(14), Target::Abs(29), Target::Abs(44), Target::Abs(24)];
+/// around the block-range boundaries: last block of a range (14, 29, 44), one below (28, 43), first block of the
+/// next range (30, 45), the middle of a range (24)
+const TARGETS: [Target; 10] = [
+    Target::Tip,
+    Target::TipMinus5,
+    Target::Abs(14),
+    Target::Abs(24),
+    Target::Abs(28),
+    Target::Abs(29),
+    Target::Abs(30),
+    Target::Abs(43),
+    Target::Abs(44),
+    Target::Abs(45),
+];
+const QUICK_TARGETS: usize = 7;
 
 #[derive(Clone, Copy, Debug, PartialEq, Eq, Serialize, Deserialize)]
 pub enum Ev {
@@ -732,7 +746,7 @@ pub fn replay(scratch: &Path, cfg: Cfg, mode: Mode, fresh: &FreshCache, history:
 pub fn alphabet(thorough: bool) -> Vec<Ev> {
     let mut v = vec![Ev::Advance(1), Ev::Advance(7), Ev::Advance(16)];
     v.extend(FORK_TOS.iter().map(|f| Ev::Fork(*f)));
-    v.extend(TARGETS.iter().map(|t| Ev::Import(*t)));
+    v.extend(TARGETS.iter().take(if thorough { TARGETS.len() } else { QUICK_TARGETS }).map(|t| Ev::Import(*t)));
     v.push(Ev::Restart);
     v.push(Ev::Prune(10));
     v.push(Ev::ArmFork(1));
